@@ -30,7 +30,7 @@ theorem get?_put_ne (σ : Store) (v w : Var) (x : AStr) (h : w ≠ v) : (σ.put 
 theorem get?_put_eq (σ : Store) (v : Var) (x : AStr) : (σ.put v x).get? v = some x := by
   simp [Store.get?, Store.put]
 
-theorem get?_bump (σ : Store) (v : Var) : σ.bump.get? v = σ.get? v := rfl
+theorem get?_bump (σ : Store) (x : AStr) (v : Var) : (σ.bump x).get? v = σ.get? v := rfl
 
 theorem commit_frame (σ : Store) (v w : Var) (x : AStr) (h : w ≠ v) : ((σ.commit v x).1).get? w = σ.get? w := by
   simp [Store.commit, get?_bump, get?_put_ne _ _ _ _ h]
